@@ -220,6 +220,8 @@ def bounded(ctx):
         # (`beta` is stored under two supported extensions: still one key, yielded once, counted once)
         d1 = make_dir(ctx, {"alpha.gb": gb_text("alpha", p1), "beta.gbk": gb_text("beta", p2, "KanR"),
                             "beta.gb": gb_text("beta", p2, "KanR"),
+                            # a stem with dots of its own (versioned file names): the key is everything before the extension
+                            "omega.v2.gb": gb_text("omega.v2", p1),
                             "notes.txt": "hello", "gamma.genbank": gb_text("gamma", p3), "noext": gb_text("noext", p3),
                             "sub/zzz.gb": gb_text("zzz", p3), "sub/deep/yyy.gb": gb_text("yyy", p3)})
         # (file stems need not be the identifiers written inside the files: `renamed.gb` holds the record `inner_id`)
@@ -227,16 +229,16 @@ def bounded(ctx):
         dirs += [d1, d2]
         r1 = base.FilesystemRegistry(d1, Entry)
         r2 = base.FilesystemRegistry(d2, Entry)
-        evals += check_mapping(r1, "directory(alpha.gb, beta.gbk, notes.txt, gamma.genbank, noext, sub/zzz.gb)", viol, expect_keys={"alpha", "beta"})
+        evals += check_mapping(r1, "directory(alpha.gb, beta.gbk, notes.txt, gamma.genbank, noext, sub/zzz.gb)", viol, expect_keys={"alpha", "beta", "omega.v2"})
         evals += check_mapping(r2, "directory(alpha.gb, delta.gb)", viol, expect_keys={"alpha", "delta"})
         distinct.update({("dir1", "alpha"), ("dir1", "beta"), ("dir2", "alpha"), ("dir2", "delta")})
         r3 = base.FilesystemRegistry(d1, Entry, extensions=("genbank", "gb"))
-        evals += check_mapping(r3, "directory(extensions=genbank,gb)", viol, expect_keys={"alpha", "beta", "gamma"})
+        evals += check_mapping(r3, "directory(extensions=genbank,gb)", viol, expect_keys={"alpha", "beta", "gamma", "omega.v2"})
         for order, first in (((r1, r2), p1), ((r2, r1), p3)):
             comb = base.CombinedRegistry()
             for r in order:
                 comb << r
-            evals += check_mapping(comb, "combined directories", viol, expect_keys={"alpha", "beta", "delta"})
+            evals += check_mapping(comb, "combined directories", viol, expect_keys={"alpha", "beta", "delta", "omega.v2"})
             got = str(comb["alpha"].entity.record.seq).upper()
             if got != first.upper():
                 viol.append(dict(name="first_wins", what="combined registry: for the shared id 'alpha' the item of the member added second was kept",
@@ -253,7 +255,7 @@ def bounded(ctx):
         inner << r1
         outer << inner
         outer << inner
-        evals += check_mapping(outer, "... inner << dir1; outer << inner (twice)", viol, expect_keys={"alpha", "beta", "delta"})
+        evals += check_mapping(outer, "... inner << dir1; outer << inner (twice)", viol, expect_keys={"alpha", "beta", "delta", "omega.v2"})
         if "alpha" in outer and str(outer["alpha"].entity.record.seq).upper() != p3.upper():
             viol.append(dict(name="first_wins_regrown", what="re-adding a grown member replaced the entry that was there first",
                              case=dict(scenario="nested combined registries")))
@@ -267,6 +269,13 @@ def bounded(ctx):
         comb << r4
         evals += check_mapping(comb, "directory registry added, a file deposited, added again", viol, expect_keys={"one", "two"})
         distinct.update({("grown", "nested"), ("grown", "directory")})
+    except Exception as e:
+        # an operation of the scenario itself (combining, re-adding, constructing a registry) failed: a finding, with
+        # everything recorded so far kept
+        import traceback
+        viol.append(dict(name="directory_scenario_raised", what="a registry operation of the directory scenarios raised %r (%s)" % (
+            e, traceback.format_exc(limit=-2).strip().splitlines()[-3].strip() if traceback.format_exc() else ""),
+            case=dict(scenario="generated directories")))
     finally:
         for d in dirs:
             shutil.rmtree(d, ignore_errors=True)
